@@ -288,13 +288,18 @@ def level_cmp(txt):
 
 
 def r4(ck, F):
+    levelfilter_rule(ck, F)
+    r4_rest(ck, F)
+
+
+def levelfilter_rule(ck, F, rid="C08.R4"):
     LF = "tracing_core::metadata::LevelFilter"
     for tr, en, cs in ((SUBSCRIBE, "enabled", "register_callsite"), (FILTER, "enabled", "callsite_enabled")):
         be = F.impl_method(tr, LF, en)
         bc = F.impl_method(tr, LF, cs)
         bh = F.impl_method(tr, LF, "max_level_hint")
         tn = tr.rsplit("::", 1)[1]
-        if not (ck.anchor("C08.R4", "%s for LevelFilter" % tn, be) and bc is not None and bh is not None):
+        if not (ck.anchor(rid, "%s for LevelFilter" % tn, be) and bc is not None and bh is not None):
             continue
         e = [show(p.ret) for p in PathEval(be).run() if p.end == "return"]
         ec = level_cmp(e[0]) if len(e) == 1 else None
@@ -308,14 +313,17 @@ def r4(ck, F):
         h = [show(p.ret) for p in PathEval(bh).run() if p.end == "return"]
         key = "%s for LevelFilter" % tn
         if ec == "level<=self" and cc == "level<=self" and rows == {True: "always()", False: "never()"}:
-            ck.ok("C08.R4", key + ": interest and enabled decided by level <= self", fn=bc.path, detail=dict(enabled=e, interest=rows))
+            ck.ok(rid, key + ": interest and enabled decided by level <= self", fn=bc.path, detail=dict(enabled=e, interest=rows))
         else:
-            ck.bad("C08.R4", key + ": interest and enabled decided by level <= self", where(bc.raw["sp"]),
+            ck.bad(rid, key + ": interest and enabled decided by level <= self", where(bc.raw["sp"]),
                    "enabled=%s interest condition=%s rows=%s" % (e, cond_txt, rows), fn=bc.path)
         if len(h) == 1 and h[0] in ("Option::Some{arg1}", "Option::Some{clone(arg1)}", "into(arg1)", "Option::Some{(arg1)}"):
-            ck.ok("C08.R4", key + ": hint = Some(self)", fn=bh.path)
+            ck.ok(rid, key + ": hint = Some(self)", fn=bh.path)
         else:
-            ck.bad("C08.R4", key + ": hint = Some(self)", where(bh.raw["sp"]), "hint is %s" % h, fn=bh.path)
+            ck.bad(rid, key + ": hint = Some(self)", where(bh.raw["sp"]), "hint is %s" % h, fn=bh.path)
+
+
+def r4_rest(ck, F):
     # Targets: interest derived from the same DirectiveSet decision as enabled; hint = the set's max_level
     T = "tracing_subscriber::filter::targets::Targets"
     for tr, cs in ((SUBSCRIBE, "register_callsite"), (FILTER, "callsite_enabled")):
